@@ -82,11 +82,24 @@ def fid_of(x):
 M.model(fid_of, _fid_of)
 
 
+def _entry_is_dir(interp, self, args, kwargs):
+    """is_dir(): fails with OSError, or says whether the entry is a directory (`dir_flag`)"""
+    if 'is_dir:raised' in self._pv_attrs:
+        raise PyRaise(self._pv_attrs['is_dir:raised'])
+    if 'is_dir:returned' not in self._pv_attrs:
+        if interp.st.choose(2) == 1:
+            self._pv_attrs['is_dir:raised'] = OSError('is_dir')
+            raise PyRaise(self._pv_attrs['is_dir:raised'])
+        self._pv_attrs['is_dir:returned'] = True
+    return interp.getattr(self, 'dir_flag')
+
+
 class DirEntryI(Interface):
-    """os.DirEntry: name and the three type tests (which may fail with OSError); `fid`: ghost identity"""
-    attrs = {'name': Str, 'fid': Int}
+    """os.DirEntry: name and the three type tests (which may fail with OSError); `fid`: ghost identity;
+    `dir_flag`: what is_dir() answers when it does not fail"""
+    attrs = {'name': Str, 'fid': Int, 'dir_flag': Bool}
     methods = {
-        'is_dir': Method(returns=Bool, pure=True, may_raise=(OSError,)),
+        'is_dir': Method(model=_entry_is_dir),
         'is_file': Method(returns=Bool, pure=True, may_raise=(OSError,)),
         'is_symlink': Method(returns=Bool, pure=True, may_raise=(OSError,)),
     }
@@ -970,7 +983,13 @@ def _bounded_generator(ctx):
                                 model = model.prune(mk_prune())
                             if mk_sel is not None:
                                 model = model.sub_set(mk_sel())
-                            files = list(model.files())
+                            try:
+                                files = list(model.files())
+                            except Exception as ex:     # nothing may escape on these (readable, loop-free) trees
+                                cases += 1
+                                failures.append({'input': repr((forest, mn, mx, pname, sname)),
+                                                 'expected': 'no exception', 'actual': repr(ex)})
+                                continue
                             actual = [str(f.relative_to_root_dir) for f in files]
                             ref = _reference_files(forest, mn, mx, prune_ref)
                             expected = {p: d for p, d in ref.items()
@@ -1158,13 +1177,19 @@ def _bounded_populate(ctx):
                            ('full, one matcher rejects', matches_full._Applier, wrong, False),
                            ('non-full, one matcher rejects', matches_non_full._Applier, wrong, False)]
             for label, applier, cond, expected in checks:
-                actual = applier('matches', Condition(cond), model).apply().value
+                try:
+                    actual = applier('matches', Condition(cond), model).apply().value
+                except Exception as ex:
+                    actual = repr(ex)
                 cases += 1
                 if actual is not expected:
                     failures.append({'input': repr((entries, label)), 'expected': expected, 'actual': actual})
-            n = sum(1 for _ in model.files())
+            try:
+                n = sum(1 for _ in model.files())
+            except Exception as ex:
+                n = repr(ex)
             cases += 1
-            if n != len(paths) or (len(list(model.files())) == 0) != (not paths):
+            if n != len(paths):
                 failures.append({'input': repr((entries, 'num-files / is-empty')), 'expected': len(paths), 'actual': n})
             shutil.rmtree(root)
     finally:
@@ -1407,3 +1432,112 @@ M.contract(P_MF + ':_Applier.__init__',
 M.assume('the relative paths of the files of a FilesMatcherModel are pairwise distinct (os.scandir gives each entry of '
          'a directory once, names within a directory are distinct): with it, `as many files as names` and `every file '
          'has one of the names` mean that the SET of relative paths equals the key set of the condition (pigeonhole)')
+
+
+# ============================================================================== one step of the breadth-first generator
+# `generate` is verified with loop invariants that say what ONE iteration of the outer loop does with the directory
+# it takes from the front of the worklist (the inner loop invariant at its exit is the step contract).  That the loop
+# as a whole visits exactly the documented files is the bounded stand-in above.
+
+def _scandir(interp, args, kwargs):
+    """os.scandir(d): some sequence of entries, or OSError.  Snapshot for the step contract: the number of items
+    yielded and the length of the worklist when the scan of a directory starts."""
+    if interp.st.choose(2) == 1:
+        raise PyRaise(OSError('scandir'))
+    entries = ListOf(DIR_ENTRY).make(interp, 'scandir')
+    snap = {'y0': wrap(interp.collect[1].length) if interp.collect is not None else 0}
+    for fr in reversed(interp.frame_stack):
+        if 'remaining_dirs' in fr.locals:
+            snap['q0'] = wrap(fr.locals['remaining_dirs'].length)
+            break
+    interp.st.ghost['scan'] = snap
+    return entries
+
+
+M.model(os.scandir, _scandir)
+
+
+def yielded_at_scan():
+    """number of items yielded when the scan of the current directory started (proof level)"""
+    raise NotImplementedError
+
+
+def queued_at_scan():
+    """length of the worklist when the scan of the current directory started (proof level)"""
+    raise NotImplementedError
+
+
+M.model(yielded_at_scan, lambda interp, args, kwargs: interp.st.ghost['scan']['y0'])
+M.model(queued_at_scan, lambda interp, args, kwargs: interp.st.ghost['scan']['q0'])
+
+DescribedPathI.mlist_codec = (('int',), lambda interp, o: [interp.getattr(interp.getattr(o, 'primitive'), 'pid')],
+                              lambda interp, scalars: new_described_path(interp, scalars[0]))
+
+_WORKLIST = MListOf(Inst(models._FilesInDir, _relative_parent=PATH, _absolute_parent=DESCRIBED_PATH, depth=Int))
+
+
+def within_min(self, depth):
+    return self._min_depth is None or depth >= self._min_depth
+
+
+def at_max(self, depth):
+    return self._max_depth is not None and depth == self._max_depth
+
+
+def worklist_ok(self, q):
+    """every directory waiting to be scanned is within the depth window (nothing deeper than max is ever scanned)"""
+    return forall_range(0, len(q), lambda k: q[k].depth >= 0
+                                             and (self._max_depth is None or q[k].depth <= self._max_depth))
+
+
+def step(self, cur, entries, i, q, yielded):
+    """what the scan of directory `cur` has done after its first i entries:
+    every entry has been yielded iff min is absent or depth >= min; nothing is queued when depth == max, otherwise at
+    most one directory per entry, at the BACK of the worklist, one level deeper and named parent/NAME-OF-AN-ENTRY"""
+    return len(yielded) == yielded_at_scan() + (i if within_min(self, cur.depth) else 0) \
+        and implies(within_min(self, cur.depth),
+                    forall_range(yielded_at_scan(), len(yielded), lambda k: yielded.src(k) == k - yielded_at_scan())) \
+        and queued_at_scan() <= len(q) and len(q) - queued_at_scan() <= i \
+        and implies(at_max(self, cur.depth), len(q) == queued_at_scan()) \
+        and forall_range(queued_at_scan(), len(q), lambda k: q[k].depth == cur.depth + 1)
+
+
+def to_be_scanned(prune, e):
+    """the entry is a directory that is not pruned"""
+    return e.dir_flag and not accepts(prune, e.fid)
+
+
+def queued_are_the_unpruned_directories(cur, prune, entries, i, q):
+    """unless depth == max: an entry is queued  <=>  it is a directory and not pruned (names are distinct within a
+    directory: an entry is identified by parent/name)"""
+    rel = den(cur._relative_parent)
+    q0 = queued_at_scan()
+    return forall_range(q0, len(q), lambda k: exists_range(0, i, lambda j:
+    den(q[k]._relative_parent) == join0(rel, P0(entries[j].name)) and to_be_scanned(prune, entries[j]))) \
+        and forall_range(0, i, lambda j: implies(to_be_scanned(prune, entries[j]), exists_range(q0, len(q), lambda k:
+        den(q[k]._relative_parent) == join0(rel, P0(entries[j].name)))))
+
+
+M.contract(P_MODELS + ':_FilesGeneratorForRecursive.generate',
+           params=dict(self=GENERATOR, root_dir_path=DESCRIBED_PATH, directory_prune=Opt(FILE_MATCHER)),
+           yields=ListOf(Iface(FileModelI)),
+           # os.scandir failing is NOT translated (only is_dir() is): an OSError may escape, see notes/C15.md
+           may_raise=(HardErrorException, OSError),
+           ensures={'terminates with an empty worklist': lambda yielded: len(yielded) >= 0},
+           raises_only=())
+M.loop(P_MODELS + ':_FilesGeneratorForRecursive.generate', 0,
+       invariant=lambda self, remaining_dirs: worklist_ok(self, remaining_dirs),
+       modifies=dict(remaining_dirs=_WORKLIST, yielded='len', current_file='local',
+                     is_within_min_depth_limit='local', is_not_at_max_depth='local', dir_entry='local',
+                     current_file_model='local'))
+M.loop(P_MODELS + ':_FilesGeneratorForRecursive.generate', 1,
+       invariant=lambda _i, _xs, self, current_file, remaining_dirs, yielded, is_within_min_depth_limit,
+                        is_not_at_max_depth, directory_prune:
+       worklist_ok(self, remaining_dirs)
+       and iff(is_within_min_depth_limit, within_min(self, current_file.depth))
+       and iff(is_not_at_max_depth, not at_max(self, current_file.depth))
+       and (self._max_depth is None or current_file.depth <= self._max_depth) and current_file.depth >= 0
+       and step(self, current_file, _xs, _i, remaining_dirs, yielded)
+       and (at_max(self, current_file.depth)
+            or queued_are_the_unpruned_directories(current_file, directory_prune, _xs, _i, remaining_dirs)),
+       modifies=dict(remaining_dirs=_WORKLIST, yielded='len', dir_entry='local', current_file_model='local'))
